@@ -1,4 +1,5 @@
 import Proofs.Tie.Buffer
+import Proofs.Buf
 /-!
 # Props.Src.Buffer — the cursor of the model is the cursor of the source (serves C03, C04, C05, C09)
 
@@ -39,6 +40,29 @@ theorem C05_buffer_getAny_from_source (b : IBuf) (h : Inv b) (tbl : PropTable)
     abs (b.getAny tbl oldOf).1 = ((abs b).getAny tbl oldOf).1 ∧ (b.getAny tbl oldOf).2 = ((abs b).getAny tbl oldOf).2
     ∧ Inv (b.getAny tbl oldOf).1 :=
   getAny_refines b h tbl oldOf
+
+/-- **C04/C05 read off the translated source.** Started anywhere inside the data with no panic or hang behind it, the
+cursor of /repo's `buffer.go` — rendered with its own guards, its slice expression `b.data[b.i:]` an explicit panic
+branch — introduces neither: `get` for every wire decoder that does not panic on a non-empty slice (all of them,
+`C04_wire_decoders`), `getAny` for every property table; the loop of `getAny` ends within the fuel of one iteration
+per unread byte, and records at most one property per byte it consumes -/
+theorem C04_buffer_safe_from_source {α} (b : IBuf) (h : Inv b) (hs : b.st ≠ .panic ∧ b.st ≠ .hang)
+    (dec : Dec α) (old : α) (hd : ∀ d, d ≠ [] → dec d ≠ .panic) :
+    (b.get dec old).1.st ≠ .panic ∧ (b.get dec old).1.st ≠ .hang := by
+  have e := (get_refines b h dec old).1
+  have hm : ((abs b).get dec old).1.Safe := get_safe (abs b) dec old hs hd
+  rw [← e] at hm
+  exact hm
+
+theorem C05_buffer_getAny_safe_from_source (b : IBuf) (h : Inv b) (hs : b.st ≠ .panic ∧ b.st ≠ .hang)
+    (tbl : PropTable) (oldOf : UInt8 → List PropOcc → Bytes) :
+    ((b.getAny tbl oldOf).1.st ≠ .panic ∧ (b.getAny tbl oldOf).1.st ≠ .hang)
+    ∧ (b.getAny tbl oldOf).2.length + ((b.getAny tbl oldOf).1.data.length - (b.getAny tbl oldOf).1.i)
+        ≤ b.data.length - b.i := by
+  obtain ⟨e1, e2, _⟩ := getAny_refines b h tbl oldOf
+  have hm := getAny_safe (abs b) tbl oldOf hs
+  rw [← e1, ← e2, rest_length, rest_length] at hm
+  exact hm
 
 /-- not vacuous: the D13 input, a reason string given twice, the second time empty, run through the rendered source -/
 example :
